@@ -783,6 +783,23 @@ def build():
         v = r.choice([0.5, 1 / 256, 3 / 256, 7.00390625, 2.5, 63.99609375])
         return (MBXML.write_ufloatvar(v, 1), MBXML.write_sfloatvar(-v, 1), MBXML.write_ufloatvar(v, 2)), []
 
+    def mbxml_render(r):
+        """presentation calls between parse and encode: a parsed document (float elements with fractions that a five-decimal
+        rendering shortens: k/128) is rendered as XML, its token values are read through get_value, and only then serialised.  The
+        document handed to the presentation calls is tracked - its value-based rendering is the same afterwards - and the encode
+        after them is part of the result"""
+        from okdmr.dmrlib.motorola.mbxml import MBXML
+        k = r.choice([1, 3, 7, 33, 77, 127])
+        # Immediate-Location-Report (0x07): request-id, speed-hor (0x6C: ufloat), optional second float
+        body = bytes([0x22, 0x03, 0x01, 0x02, 0x03, 0x6C, r.randrange(1, 100), k])
+        buf = bytes([0x07, len(body)]) + body
+        docs = MBXML.from_bytes(buf)
+        track(docs)
+        xml = [d.as_xml() for d in docs]
+        vals = [[p.get_value(d) for p in d.parts] for d in docs]
+        return (xml, vals, [MBXML.as_bytes(d) for d in docs]), [buf]
+
+    add("mbxml_render", mbxml_render, 6)
     add("mbxml_lat", mbxml_lat, 3)
     add("mbxml_lon", mbxml_lon, 3)
     add("mbxml_float", mbxml_float, 3)
